@@ -106,7 +106,7 @@ let () =
             let (p, ui) = makeMove zk !pos m in
             pos := p; moves := m :: !moves; undos := ui :: !undos;
             out ("= " ^ state p);
-            out (Printf.sprintf "u %d %d %d %d" (int_of_n ui.u_captured) (int_of_n ui.u_castleMask)
+            out (Printf.sprintf "U %d %d %d %d" (int_of_n ui.u_captured) (int_of_n ui.u_castleMask)
                    (int_of_z ui.u_epSquare) (int_of_z ui.u_halfMoveClock))
           | "un" ->
             (match !moves, !undos, !snaps with
@@ -122,18 +122,18 @@ let () =
             out line;
             let m = { mfrom = n_of_int (ai 0); mto = n_of_int (ai 1); mpromote = n_of_int (ai 2) } in
             let (p, ui) = makeMoveB !pos m in
-            out ("b " ^ partial p);
+            out ("B " ^ partial p);
             let p = unMakeMoveB p m ui in
             pos := p;
-            out ("b " ^ partial p)
+            out ("B " ^ partial p)
           | "see" ->
             out line;
             let m = { mfrom = n_of_int (ai 0); mto = n_of_int (ai 1); mpromote = N0 } in
             let (p, ui) = makeSEEMove !pos m in
-            out ("b " ^ partial p);
+            out ("B " ^ partial p);
             let p = unMakeSEEMove p m ui in
             pos := p;
-            out ("b " ^ partial p)
+            out ("B " ^ partial p)
           | "swm" -> out line; pos := setWhiteMove zk !pos (ai 0 <> 0); out ("= " ^ state !pos)
           | "sep" -> out line; pos := setEpSquare zk !pos (z_of_int (ai 0)); out ("= " ^ state !pos)
           | "scm" -> out line; pos := setCastleMask zk !pos (n_of_int (ai 0)); out ("= " ^ state !pos)
